@@ -20,7 +20,7 @@ theorem pNumber_head (c : UInt8) (s t : Bytes) (h : pNumber (c :: s) = some t) :
       · simp [pInt, hz, hd] at h
 
 theorem frag_valid (o : Opt) (q : Quoter o) (f : Frag) (d : Nat) (hd : d + f.depth ≤ o.maxDepth) :
-    validAt o d (f.bytes q) = true := by
+    validAt o d (f.bytes q.quote) = true := by
   cases f with
   | null => exact validAt_null o d
   | bool b => cases b
@@ -37,8 +37,8 @@ theorem frag_valid (o : Opt) (q : Quoter o) (f : Frag) (d : Nat) (hd : d + f.dep
   | emptyArr => exact validAt_emptyArr o d (by simp [Frag.depth] at hd; omega)
 
 mutual
-theorem render_valid_aux (o : Opt) (q : Quoter o) : ∀ (t : OutTree) (d : Nat), t.WellFormed q →
-    d + t.depth ≤ o.maxDepth → validAt o d (t.render q) = true
+theorem render_valid_aux (o : Opt) (q : Quoter o) : ∀ (t : OutTree) (d : Nat), t.WellFormed o q.quote →
+    d + t.depth ≤ o.maxDepth → validAt o d (t.render q.quote) = true
   | .atom f, d, _, hd => by simpa [OutTree.render] using frag_valid o q f d (by simpa [OutTree.depth] using hd)
   | .arr ts, d, hw, hd => by
     simp only [OutTree.depth] at hd
@@ -49,8 +49,8 @@ theorem render_valid_aux (o : Opt) (q : Quoter o) : ∀ (t : OutTree) (d : Nat),
     simp only [OutTree.WellFormed] at hw
     simp only [OutTree.render]
     exact object_compose' o d _ (by omega) (renderMembers_valid o q ms (d + 1) hw.1 (by omega)) hw.2
-theorem renderList_valid (o : Opt) (q : Quoter o) : ∀ (ts : List OutTree) (d : Nat), wfList q ts →
-    d + depthList ts ≤ o.maxDepth → ∀ x ∈ renderList q ts, validAt o d x = true
+theorem renderList_valid (o : Opt) (q : Quoter o) : ∀ (ts : List OutTree) (d : Nat), wfList o q.quote ts →
+    d + depthList ts ≤ o.maxDepth → ∀ x ∈ renderList q.quote ts, validAt o d x = true
   | [], _, _, _ => by simp [renderList]
   | t :: ts, d, hw, hd => by
     simp only [wfList] at hw
@@ -60,9 +60,9 @@ theorem renderList_valid (o : Opt) (q : Quoter o) : ∀ (ts : List OutTree) (d :
     rcases hx with rfl | hx
     · exact render_valid_aux o q t d hw.1 (by omega)
     · exact renderList_valid o q ts d hw.2 (by omega) x hx
-theorem renderMembers_valid (o : Opt) (q : Quoter o) : ∀ (ms : List (Bytes × OutTree)) (d : Nat), wfMembers q ms →
+theorem renderMembers_valid (o : Opt) (q : Quoter o) : ∀ (ms : List (Bytes × OutTree)) (d : Nat), wfMembers o q.quote ms →
     d + depthMembers ms ≤ o.maxDepth →
-    ∀ m ∈ renderMembers q ms, validString o m.1 = true ∧ validAt o d m.2 = true
+    ∀ m ∈ renderMembers q.quote ms, validString o m.1 = true ∧ validAt o d m.2 = true
   | [], _, _, _ => by simp [renderMembers]
   | (n, t) :: ms, d, hw, hd => by
     simp only [wfMembers] at hw
